@@ -6,7 +6,7 @@ import proto, gen, implutil
 
 THEOREMS = ['C09_shape', 'C09_neg_involutive', 'C09_mirror_involutive', 'C09_amp_consistency', 'C09_monotonicity', 'C09_burst_fraction', 'C09_labels', 'C09_mirror']
 RULE = ("generated signals of all families x option sets of C01 x both burst methods x return_samples True / False: compute_features(x, center_extrema='trough') against compute_features(-x, "
-        "center_extrema='peak') (two implementation runs; negation is exact in float64): same number of cycles, same sample indices under the documented renaming, "
+        "center_extrema='peak') (two implementation runs; negation is exact in float64; one case in eight on an integer-typed recording reaching the limits of its type): same number of cycles, same sample indices under the documented renaming, "
         "shape features related by the renaming / negation / 1-x map GENERATED into Lean from rename_extrema_df (applied by the driver), identical burst features (also the one-sided direction='next' / 'last' consistencies) and "
         "identical is_burst; distinct = distinct (signal, options); non-trivial = >= 3 cycles with differing periods")
 ASSUMPTIONS = ["the dual-threshold detector and amp_by_time are even in the signal (E5); observed here on the implementation",
@@ -36,7 +36,7 @@ def generate(ctx):
               if method == 'cycles' else {'burst_fraction_threshold': float(rng.choice([0.5, 1.0])), 'min_n_cycles': int(rng.choice([1, 3]))})
         bk = {'amp_threshes': [0.5, 1.5]} if (method == 'amp' and rng.random() < 0.5) else None
         cases.append(dict(sig=proto.arr2hex(s['sig']), fs=s['fs'], f_range=list(s['f_range']), fk=fk, boundary=(None if rng.random() < 0.5 else int(rng.choice([0, 5, 30]))),
-                          method=method, th=th, bk=bk, family=s['family'], rs=bool(rng.random() < 0.65), pres=implutil.pick_presentation(rng, 0.3), reuse=bool(rng.random() < 0.25), strict=bool(rng.random() < 0.3 or s['family'] in ('zeroed', 'plateau', 'quantised', 'clipped'))))     # (signals with flat stretches: 0/0 flank ratios)
+                          method=method, th=th, bk=bk, family=s['family'], rs=bool(rng.random() < 0.65), pres=implutil.pick_presentation(rng, 0.3), reuse=bool(rng.random() < 0.25), strict=bool(rng.random() < 0.3 or s['family'] in ('zeroed', 'plateau', 'quantised', 'clipped')), dt=(str(['int16', 'uint16', 'uint8', 'int32'][i % 4]) if i % 8 == 5 else None)))     # (signals with flat stretches: 0/0 flank ratios)
     return cases
 
 _objs = {}
@@ -57,6 +57,16 @@ def _run(c, sig, center):
     return implutil.twice(lambda: run(compute_features, sig, c['fs'], implutil.frange(c), center_extrema=center, burst_method=c['method'], burst_kwargs=bk,
                                                  threshold_kwargs=th, find_extrema_kwargs=fek, return_samples=c.get('rs', True)), [sig, bk, th, fek], 'compute_features')
 
+def _as_int(x, dt):
+    m = float(np.max(np.abs(x))) or 1.0
+    if dt.startswith('u'):
+        hi = np.iinfo(dt).max
+        return np.round((x / m + 1) / 2 * hi).astype(dt)
+    hi = np.iinfo(dt).max
+    xi = np.round(x / m * hi).astype(dt)
+    xi[int(np.argmin(xi))] = np.iinfo(dt).min          # the negative rail itself
+    return xi
+
 def _shape_rows(df):
     return '[' + ','.join('[' + ','.join((str(int(df[col].values[i])) if k in INT else proto.enc_rat(float(df[col].values[i]))) for k, col in enumerate(SHAPE)) + ']'
                           for i in range(len(df))) + ']'
@@ -64,7 +74,11 @@ def _shape_rows(df):
 def evaluate(ctx, cases):
     reqs, plan = [], []
     for c in cases:
-        x = proto.hex2arr(c['sig'])
+        x = proto.hex2arr(c['sig']); xneg = -x
+        if c.get('dt'):
+            # an INTEGER-typed recording (ADC counts) reaching the limits of its type: the trough-centred run gets the integer array, the mirrored run the
+            # negated samples as floats (negating inside a fixed-width type wraps: -(-32768) = -32768, -x = 2^n - x for unsigned types)
+            x = _as_int(x, c['dt']); xneg = -(x.astype(float))
         errs = []
         t = p = None
         try:
@@ -72,7 +86,7 @@ def evaluate(ctx, cases):
         except Exception as e:
             errs.append('trough-centred run raised ' + type(e).__name__ + ': ' + str(e)[:60])
         try:
-            p = _run(c, -x, 'peak')
+            p = _run(c, xneg, 'peak')
         except Exception as e:
             errs.append('peak-centred run of -x raised ' + type(e).__name__ + ': ' + str(e)[:60])
         if any('HistoryDependence' in e for e in errs):
@@ -126,20 +140,20 @@ def evaluate(ctx, cases):
                 a, b = t[col].values, p[col].values
                 if not all((u != u and v != v) or u == v for u, v in zip(a.tolist(), b.tolist())):
                     fail('burst feature / label column %s differs between the two runs' % col); break
-            if ok and c.get('pres') not in (None, 'array'):
+            if ok and (c.get('pres') not in (None, 'array') or c.get('dt')):
                 # the shape stage called directly on the presented samples (the negate-then-rename step works on ITS argument): same shape columns
                 # as the full analysis, and the caller's samples are left as they were
                 from bycycle.features import compute_shape_features
-                xs = implutil.present(proto.hex2arr(c['sig']), c['pres'])
+                xs = _as_int(proto.hex2arr(c['sig']), c['dt']) if c.get('dt') else implutil.present(proto.hex2arr(c['sig']), c['pres'])
                 before = np.array(xs, dtype=float).copy()
                 try:
                     ts = implutil.quiet(compute_shape_features, xs, c['fs'], implutil.frange(c), center_extrema='trough', find_extrema_kwargs=implutil.fe_kwargs(c['fk'], c['boundary'], None))
                     if not np.array_equal(np.array(xs, dtype=float), before):
-                        fail('compute_shape_features(center_extrema=\'trough\') modified the caller\'s samples (%s)' % c['pres'])
+                        fail('compute_shape_features(center_extrema=\'trough\') modified the caller\'s samples (%s)' % (c.get('dt') or c['pres']))
                     elif any(not ((ts[col].values == t[col].values) | (np.isnan(ts[col].values.astype(float)) & np.isnan(t[col].values.astype(float)))).all() for col in SHAPE):
-                        fail('compute_shape_features on the %s presentation differs from the shape columns of compute_features' % c['pres'])
+                        fail('compute_shape_features on the %s presentation differs from the shape columns of compute_features' % (c.get('dt') or c['pres']))
                 except Exception as e:
-                    fail('compute_shape_features raised for the %s presentation although compute_features returned: %s' % (c['pres'], type(e).__name__))
+                    fail('compute_shape_features raised for the %s presentation although compute_features returned: %s' % (c.get('dt') or c['pres'], type(e).__name__))
             if ok and not c.get('rs', True):
                 # the renaming utility itself on a table WITHOUT sample columns: the peak-centred table of -x, renamed, is the trough-centred table
                 from bycycle.utils import rename_extrema_df
